@@ -4,6 +4,7 @@ import TantivyModel.Proofs.Columnar.RangeU32
 import TantivyModel.Proofs.Columnar.RangeLookupMain
 import TantivyModel.Proofs.Columnar.CompactGaps
 import TantivyModel.Proofs.Columnar.CompactRange
+import TantivyModel.Proofs.Columnar.CompactColumnMain
 import TantivyModel.Proofs.Columnar.StackMissing
 import TantivyModel.Proofs.Columnar.Writer
 import TantivyModel.Proofs.Columnar.OptRankSelect
@@ -226,6 +227,34 @@ theorem C08_compact_space_order_preserving (vals : List Nat) (hs : vals.Pairwise
   intro v hvm
   obtain ⟨c, h1, h2, h3, h4⟩ := toCompactFrom_spec _ hv 1 v (hc v hvm)
   exact ⟨c, h1, h2, by omega, h4⟩
+
+/-- a whole compact-space (IP) column through its real byte layout — header (VInt num_vals, codec 1),
+bit-packed compact values, footer (u64 flags, VIntU128 min / max / num_vals, u8 num_bits, VInt
+number of ranges, delta-coded VIntU128 range bounds), footer length as u32 LE — for whatever blanks
+the cost heuristic removed: `open_u128_mapped (serialize vals)` succeeds, recovers the compact
+space, and every row reads back exactly. (At most 10^8 ranges so that the footer length fits the
+trailing u32; the amplitude must fit u64 — the real code asserts `≤ 32` bits.) -/
+theorem C08_compact_column_roundtrip (vals : List Nat) (hs : vals.Pairwise (· < ·)) (hmax : ∀ v ∈ vals, v ≤ U128MAX)
+    (sel : List (Nat × Nat)) (hsub : sel.Sublist (allGaps vals)) (hne : sel ≠ [])
+    (hnr : (coveredOf sel).length ≤ 100000000) (hamp : amplitude (coveredOf sel) < 2 ^ 64)
+    (col : List Nat) (hcol : ∀ v ∈ col, v ∈ vals) (hlen : col.length < 2 ^ 32) :
+    ∃ c, openU128Column (ipColumnEnc (coveredOf sel) col) = some c ∧ c.numVals = col.length
+      ∧ c.ranges = coveredOf sel ∧ ∀ i (hi : i < col.length), c.get i = col[i] := by
+  obtain ⟨hv, hc⟩ := C08_compact_space_covers vals hs hmax sel hsub hne
+  have hrmax : ∀ r ∈ coveredOf sel, r.2 ≤ U128MAX := by
+    obtain ⟨_, hvalid⟩ := allGaps_spec vals hs hmax
+    have hvb := validBlanks_sublist hsub hvalid
+    have hcov : coveredOf sel = coveredFrom 0 sel := by
+      unfold coveredOf
+      cases sel with
+      | nil => exact absurd rfl hne
+      | cons b bs => rfl
+    rw [hcov]
+    exact coveredFrom_le_max 0 sel hvb
+  exact compact_column_roundtrip _ hv hrmax hnr hamp col (fun v hvm => hc v (hcol v hvm)) hlen
+
+example : (openU128Column (ipColumnEnc [(5, 100), (2 ^ 128 - 1, 2 ^ 128 - 1)] [100, 5, 2 ^ 128 - 1])).map
+    (fun c => (List.range 3).map c.get) = some [100, 5, 2 ^ 128 - 1] := by decide
 
 /-- range lookup on a compact-space column (`CompactSpaceDecompressor::get_row_ids_for_value_range`):
 the u128 query range is converted to a compact range — an end that is covered maps to its compact
